@@ -1,7 +1,8 @@
 import Cuke.Model.Summarize
+import Cuke.Model.Normalize
 /-
   Compositional model of the writer combinators:
-  `FailOnSkipped`, `Repeat`, `Tee`, `Or`, `Summarize`, `AssertNormalized`, `discard::*`
+  `FailOnSkipped`, `Repeat`, `Tee`, `Or`, `Summarize`, `Normalize`, `AssertNormalized`, `discard::*`
   over recording leaf writers. A pipeline is a static expression `W`; its state type
   `St w` is computed from the expression, so `handle` is structurally recursive on `w`.
 -/
@@ -110,6 +111,7 @@ inductive W where
   | or (c : OrPred) (l r : W)
   | summ (w : W)
   | pass (w : W)     -- `AssertNormalized`, `discard::Arbitrary`, `discard::Stats`: identities on events
+  | norm (w : W)     -- `Normalize` (the queue model of Cuke/Model/Normalize.lean in front of `w`)
   deriving Repr, DecidableEq
 
 /-- state of a pipeline -/
@@ -121,6 +123,7 @@ inductive W where
   | .or _ l r => St l × St r
   | .summ w => Summ × St w
   | .pass w => St w
+  | .norm w => Option Norm × St w     -- `none`: a `panic!` branch of `Normalize` was hit
 
 def St.init : (w : W) → St w
   | .leaf _ => ({} : StatsVec)
@@ -130,6 +133,7 @@ def St.init : (w : W) → St w
   | .or _ l r => (St.init l, St.init r)
   | .summ w => (({} : Summ), St.init w)
   | .pass w => St.init w
+  | .norm w => (some Norm.init, St.init w)
 
 /-- `Arbitrary::write` through the pipeline (no state changes: leaves only record). -/
 def writeW : (w : W) → WVal → List Out
@@ -140,6 +144,7 @@ def writeW : (w : W) → WVal → List Out
   | .or _ _ _, _ => []      -- `Or` has no `Arbitrary` impl; never called on type-correct pipelines
   | .summ w, v => writeW w v
   | .pass w, v => writeW w v
+  | .norm w, v => writeW w v
 
 def Summ.summaryVal (s : Summ) : WVal :=
   .summary s.features s.rules s.scenarios s.steps s.parsingErrors s.failedHooks
@@ -174,6 +179,17 @@ def handle (cat : Catalog) : (w : W) → St w → Ev → St w × List Out
     let p := sm.post
     if p.2 then ((p.1, r.1), r.2 ++ writeW w p.1.summaryVal) else ((p.1, r.1), r.2)
   | .pass w, s, e => handle cat w s e
+  | .norm w, (ns, s), e =>
+    match ns with
+    | none => ((none, s), [])
+    | some n =>
+      match n.handle e with
+      | none => ((none, s), [])
+      | some (n', outs) =>
+        let r := outs.foldl (fun (acc : St w × List Out) ev =>
+          let r2 := handle cat w acc.1 ev
+          (r2.1, acc.2 ++ r2.2)) (s, [])
+        ((some n', r.1), r.2)
 
 /-- the `Stats` getters of a pipeline -/
 def statsOf : (w : W) → St w → StatsVec
@@ -186,6 +202,7 @@ def statsOf : (w : W) → St w → StatsVec
     { passed := sm.steps.passed, skipped := sm.steps.skipped, failed := sm.steps.failed,
       retried := sm.steps.retried, parsingErrors := sm.parsingErrors, hookErrors := sm.failedHooks }
   | .pass w, s => statsOf w s
+  | .norm w, (_, s) => statsOf w s
 
 /-- `Stats::execution_has_failed`: wrappers that forward it, the others use the default formula. -/
 def execFailed : (w : W) → St w → Bool
@@ -196,6 +213,7 @@ def execFailed : (w : W) → St w → Bool
   | .or c l r, s => (statsOf (.or c l r) s).defaultFailed
   | .summ w, s => (statsOf (.summ w) s).defaultFailed
   | .pass w, s => execFailed w s
+  | .norm w, (_, s) => execFailed w s
 
 /-- run a whole stream -/
 def runW (cat : Catalog) (w : W) (evs : List Ev) : St w × List Out :=
